@@ -80,15 +80,39 @@ theorem paging_requests_in_order (pages : List Page) (faults : List Attempt) (op
   intro a ha b hb hab
   rw [(inv.a.log_ok a ha).1, (inv.a.log_ok b hb).1, hab]
 
-/-- A server that answers as a FUNCTION OF THE PRESENTED PAGING STATE (as real servers do) and would
-answer the states of the script's chain with the script's pages, answers every request the pager ever
-sends for page `k` with page `k`: the positional script of the model loses nothing. -/
+/-- Only pages the server announced are ever asked for: a request for page `k` is sent only if every
+earlier page came with a paging state. -/
+theorem requested_pages_exist (pages : List Page) (faults : List Attempt) (ops : List Op) :
+    ∀ e ∈ (run (init pages faults) ops).log, ∀ j, j < e.1 → (pageAt pages j).2 ≠ none :=
+  fun e he => (inv_reachable pages faults ops).rc.log_reach e he
+
+/-- A server that answers as a FUNCTION OF THE PRESENTED PAGING STATE (as real servers do), and that
+answers the states of the script's chain with the script's pages - as far as the chain goes, i.e. for
+every `k` all of whose predecessors returned a paging state - answers every request the pager ever sends
+for page `k` with page `k`: the positional script of the model loses nothing. (Such an `f` exists as soon
+as the states of the chain are distinct; see the example.) -/
 theorem state_keyed_server_sees_script (pages : List Page) (faults : List Attempt) (ops : List Op)
-    (f : Option PState → Page) (hf : ∀ k, f (stateBefore pages k) = pageAt pages k) :
+    (f : Option PState → Page)
+    (hf : ∀ k, (∀ j, j < k → (pageAt pages j).2 ≠ none) → f (stateBefore pages k) = pageAt pages k) :
     ∀ e ∈ (run (init pages faults) ops).log, f e.2 = pageAt pages e.1 := by
   intro e he
   rw [paging_state_chain pages faults ops e he]
-  exact hf e.1
+  exact hf e.1 (requested_pages_exist pages faults ops e he)
+
+/-- Non-vacuity: a three-page script with distinct states and a non-empty first page, and the server
+keyed by state that it induces, satisfy the hypothesis. -/
+example :
+    let pages : List Page := [([0, 1], some [1]), ([2], some [2]), ([3], none)]
+    let f : Option PState → Page := fun st =>
+      if st = none then ([0, 1], some [1]) else if st = some [1] then ([2], some [2])
+      else if st = some [2] then ([3], none) else ([], none)
+    ∀ k, (∀ j, j < k → (pageAt pages j).2 ≠ none) → f (stateBefore pages k) = pageAt pages k := by
+  intro pages f k h
+  match k with
+  | 0 => decide
+  | 1 => decide
+  | 2 => decide
+  | k + 3 => exact absurd (h 2 (by omega)) (by decide)
 
 example : (run (init [([0], some [7]), ([1], some [8, 9]), ([], none)] [.ok, .retry, .retry, .ok])
     [.prod, .prod, .prod, .prod, .prod, .poll, .poll, .prod, .prod]).log
@@ -238,25 +262,78 @@ theorem eager_consumer_gets_everything (pages : List Page) (faults : List Attemp
     | alive => rfl
     | unbuilt => have := (inv.c.unbuilt hr).2.2.2.2.2.1; simp [hend'] at this
     | dropped =>
-      exfalso
-      -- no `drop` in the schedule
-      have : ∀ (ops : List Op) (s : St), Op.drop ∉ ops → s.rx ≠ .dropped → (run s ops).rx ≠ .dropped := by
-        intro ops
-        induction ops with
-        | nil => intro s _ h; exact h
-        | cons op ops ih =>
-          intro s hnd h
-          simp only [List.mem_cons, not_or] at hnd
-          refine ih (step s op) hnd.2 ?_
-          cases op
-          · exact prod_rx s h
-          · simp only [step]; rw [poll_rx]; exact h
-          · exact absurd rfl hnd.1
-      exact this ops (init pages faults) hnd (by simp [init]) hr
+      exact absurd hr (run_no_drop_rx ops _ hnd (by simp [init]))
   exact rows_exact pages faults ops hig halive hend' herr
 
 example : (runEager 40 (init [([0, 1], some [1]), ([], some []), ([], some [5]), ([2], some [3]), ([], none)]
     [.retry, .ok, .retry, .retry])).delivered = [0, 1, 2] := by decide
+
+/-- Termination from ANY reachable live state: whatever producer steps and polls happened before (any
+drop-free schedule `ops`), scheduling producer and consumer in turn from there ends the stream within
+`measure (init ..)` rounds. -/
+theorem terminates_after_any_prefix (pages : List Page) (faults : List Attempt) (ops : List Op) (n : Nat)
+    (hnd : Op.drop ∉ ops)
+    (hn : faults.length + 5 * pages.length + todoRows pages + 7 ≤ n) :
+    (runEager n (run (init pages faults) ops)).ended = true ∨
+    (runEager n (run (init pages faults) ops)).ctorErr.isSome = true := by
+  refine runEager_ends n _ (inv_reachable pages faults ops) (uinv_run (uinv_init pages faults) ops)
+    (run_no_drop_rx ops _ hnd (by simp [init])) ?_
+  have := measure_run_le ops (init pages faults)
+  rw [measure_init] at this
+  omega
+
+/-! ### a non-retried failure surfaces as THAT error -/
+
+/-- In every reachable state, for every final failure `.fail e` among the attempt outcomes consumed so
+far: the consumer has been given exactly `e` (as the stream's only error, or as the constructor's error),
+or `e` sits in the channel, or the producer is handing it over, or the consumer is gone. A failure is
+never swallowed or replaced. -/
+theorem fail_pending_or_surfaced (pages : List Page) (faults : List Attempt) (ops : List Op)
+    (pre : List Attempt) (e : String)
+    (hpre : faults = pre ++ (run (init pages faults) ops).faults) (he : Attempt.fail e ∈ pre) :
+    (run (init pages faults) ops).errs = [e] ∨ (run (init pages faults) ops).ctorErr = some e ∨
+    (run (init pages faults) ops).chan = some (.err e) ∨
+    (run (init pages faults) ops).pc = .send (.err e) none ∨ (run (init pages faults) ops).rx = .dropped := by
+  obtain ⟨pre', hpre', hf⟩ := (inv_reachable pages faults ops).sv.failed
+  have : pre = pre' := List.append_cancel_right (hpre.symm.trans hpre')
+  exact hf e (this ▸ he)
+
+/-- ... and once producer and consumer have been scheduled in turn for `measure (init ..)` rounds (after
+any drop-free prefix), the consumer HAS it: the stream yielded exactly `[e]`, or the constructor
+returned `e`. -/
+theorem fail_surfaces (pages : List Page) (faults : List Attempt) (ops : List Op) (n : Nat)
+    (hnd : Op.drop ∉ ops)
+    (hn : faults.length + 5 * pages.length + todoRows pages + 7 ≤ n)
+    (pre : List Attempt) (e : String)
+    (hpre : faults = pre ++ (runEager n (run (init pages faults) ops)).faults)
+    (he : Attempt.fail e ∈ pre) :
+    (runEager n (run (init pages faults) ops)).errs = [e] ∨
+    (runEager n (run (init pages faults) ops)).ctorErr = some e := by
+  have hend := terminates_after_any_prefix pages faults ops n hnd hn
+  obtain ⟨ops', hops, hnd'⟩ := runEager_is_run n (run (init pages faults) ops)
+  have hrun : runEager n (run (init pages faults) ops) = run (init pages faults) (ops ++ ops') := by
+    rw [hops, run_append]
+  rw [hrun] at hpre hend ⊢
+  have inv := inv_reachable pages faults (ops ++ ops')
+  have hrx : (run (init pages faults) (ops ++ ops')).rx ≠ .dropped :=
+    run_no_drop_rx _ _ (by simp [hnd, hnd']) (by simp [init])
+  have hq : (run (init pages faults) (ops ++ ops')).pc = .done ∧ (run (init pages faults) (ops ++ ops')).chan = none := by
+    rcases hend with h | h
+    · exact ⟨(inv.c.ended_q h).1, (inv.c.ended_q h).2.1⟩
+    · have hc := inv.c.ctor h
+      exact ⟨hc.2, (inv.c.unbuilt hc.1).2.2.2.1⟩
+  rcases fail_pending_or_surfaced pages faults (ops ++ ops') pre e hpre he with h | h | h | h | h
+  · exact Or.inl h
+  · exact Or.inr h
+  · simp [hq.2] at h
+  · simp [hq.1] at h
+  · exact absurd h hrx
+
+example :
+    let s := runEager 40 (run (init [([0, 1], some [1]), ([2], some [2]), ([3], none)] [.ok, .retry, .fail "x", .ok])
+      [Op.prod, .poll])
+    [Attempt.ok, .retry, .fail "x", .ok] = [.ok, .retry, .fail "x"] ++ s.faults ∧ s.errs = ["x"] ∧
+      s.delivered = [0, 1] := by decide
 
 /-! ### early drop -/
 
